@@ -583,13 +583,45 @@ def clause_storage_bounds_after_merge(prog, rep, scope, rule="validate-then-appl
     rep.floor(rule, "storage bounds on peer-installed group data written after the merge", examined, 5)
 
 
+def _copies_through_tuples(g, local):
+    """copy chain of a local that also looks through `(a, b)` / `let (x, y) = t`: a value taken out of position j of a tuple is the
+    j-th operand the tuple was built from.  Returns (locals, places) met on the way."""
+    locs, places, todo = set(), [], [local]
+    while todo:
+        l = todo.pop()
+        if l in locs:
+            continue
+        locs.add(l)
+        for x in A.copy_sources(g, l):
+            if isinstance(x, int):
+                if x not in locs:
+                    todo.append(x)
+                continue
+            places.append(x)
+            idx = [e for e in x[1:] if isinstance(e, str) and e.startswith(".") and e[1:].isdigit()]
+            if len(x) == 2 and idx:
+                j = int(idx[0][1:])
+                for tl in [y for y in A.copy_sources(g, x[0]) if isinstance(y, int)]:
+                    for bb, kind, d in g.defs().get(tl, []):
+                        if kind == "stmt" and d.get("k") == "tuple" and j < len(d.get("o", [])) and "p" in d["o"][j]:
+                            places.append(tuple(d["o"][j]["p"]))
+                            todo.append(d["o"][j]["p"][0])
+    return locs, places
+
+
 def _peer_source(prog, g, local, fld):
     """the NostrGroupDataExtension field a storage argument (or its field `fld`) is filled from in g, if it comes from the decoded group data"""
     cands = []
     if fld is None:
+        locs, places = _copies_through_tuples(g, local)
+        named = [pl for pl in places if any(isinstance(e, str) and e.startswith(".") and not e[1:].isdigit() for e in pl[1:])]
+        if named:
+            og = A.origins(prog, g, named[0][0], scope={g.path}, max_frames=0, _follow_callers=False)
+            if og.has_call(_is_group_data_decode):
+                return [e[1:] for e in named[0][1:] if isinstance(e, str) and e.startswith(".") and not e[1:].isdigit()][-1]
         cands.append(("whole", local))
     else:
-        chain = set(x for x in A.copy_sources(g, local) if isinstance(x, int))
+        chain = _copies_through_tuples(g, local)[0]
         for bb, st in g.stmts():
             if st["d"] and st["d"][0] in chain and ("." + fld) in [e for e in st["d"][1:] if isinstance(e, str)]:
                 for o in st.get("o", []):
